@@ -39,6 +39,8 @@ pub const OPS: &[OpSpec] = &[
     OpSpec { name: "cst", nslots: 0, kids: &[], payload: true },
     OpSpec { name: "p5", nslots: 5, kids: &[], payload: false },
     OpSpec { name: "p6", nslots: 6, kids: &[], payload: false },
+    // leaf whose payload is an interned Symbol (process-global interner), used by C20 only
+    OpSpec { name: "sym", nslots: 0, kids: &[], payload: true },
 ];
 
 pub fn op_index(name: &str) -> Option<u8> {
